@@ -1,0 +1,12 @@
+//go:build verif
+
+package didnuts
+
+import "github.com/nuts-foundation/nuts-node/network/dag"
+
+// VerifAmbassadorReceiver returns the DAG event receiver of an ambassador made by NewAmbassador: the function that
+// Start() subscribes on the network. It lets the verification harness deliver transactions of a scripted network to
+// the real ambassador without a NATS connection (Start also subscribes to the REPROCESS stream).
+func VerifAmbassadorReceiver(a Ambassador) dag.ReceiverFn {
+	return a.(*ambassador).handleNetworkEvent
+}
